@@ -50,7 +50,7 @@ func New() core.Property { return &P{} }
 func (p *P) ID() string    { return "C19" }
 func (p *P) Level() string { return "fault_enumeration" }
 func (p *P) Rule() string {
-	return "one case = a scenario: 1-4 files (valid canonical / valid unformatted / invalid / empty / lint-dirty, random permission bits) + a command line (format [-i|--check|-o F] [--compact] [--indent n]; lint [--auto-fix] [--fail-on-warn] [--max-length n]; validate [--quiet|--check] [--strict] [--dialect d] [--output-format text|json|sarif] [--output-file F]; parse [-f json]; files, inline SQL or stdin). Fault-free oracles on every scenario; for every in-place or file-producing scenario ALL fault points of its syscall trace are enumerated: SIGKILL before each file-mutating syscall and after the last, ENOSPC/EIO at each, and a torn write (RLIMIT_FSIZE) at every byte offset of the output (thorough, outputs <= 512 B) or at {0,1,len/2,len-1} + 2 sampled offsets (quick). non-trivial = the scenario has at least one non-empty file and the command ran to a verdict; distinct = distinct (command line, file contents) (tape hash)"
+	return "one case = a scenario: 1-4 files (valid canonical / valid unformatted / invalid / empty / blank / comment-only / lint-dirty / multi-statement / dialect- and strict-sensitive / non-ASCII / long / derived canonical, CRLF and trailing-newline forms / statement kinds the CLI formatter lacks / symbolic link / missing / twins in two directories; random permission bits) + a command line (format [-i|--check|both|-o F] [--compact] [--indent n] [--max-line n] [--no-uppercase] [-v]; lint [--auto-fix] [--fail-on-warn] [--max-length n] [--security] [-o F]; validate [--quiet|--check] [--strict] [--dialect d] [--output-format text|json|sarif] [--output-file F] [--stats] [-v]; parse [-f json|yaml|tree|table] [--ast|--tree|--tokens] [-o F]; files, a directory walk (-r) with decoys, inline SQL or stdin). Fault-free oracles on every scenario; for every in-place or file-producing scenario ALL fault points of its syscall trace are enumerated: SIGKILL before each file-mutating syscall and after the last, ENOSPC/EIO at each, and a torn write (RLIMIT_FSIZE) at every byte offset of the output (thorough, outputs <= 512 B) or at {0,1,len/2,len-1} + 2 sampled offsets (quick). non-trivial = the scenario has at least one non-empty file and the command ran to a verdict; distinct = distinct (command line, file contents) (tape hash)"
 }
 func (p *P) Runs(tier string) int {
 	if tier == "thorough" {
